@@ -38,7 +38,7 @@ impl Property for C18 {
         "C18"
     }
     fn rule(&self) -> &'static str {
-        "profile `flow` with shadowing emphasis, 0-2 virtual signals (so the variable swap around virtual evaluation runs), X/C rows (several items share one evaluation), Z/X device answers in a third of the cases (virtual signals then make rows error items and the caller goes on). Every row statement carries a tag and two 64-bit probe inputs `(v)` for variables v definitely in scope there. The caller inspects vars() after every yielded row. Oracle (self-consistent, no reference values): with D = variables definitely in scope at that source row and P = variables that can be in scope there (lets at the level of an enclosing frame, enclosing counters) by an independent static scope analysis of the generating program: D is a subset of keys(vars()) which is a subset of P (so variables of ended loops, device outputs and virtual signals are absent), and for each probed v, vars()[v] equals the value the crate itself evaluated `(v)` to in that row (the innermost binding). Non-trivial: some inspected row has a shadowed name in scope, or follows an ended loop, or is an expansion item other than the first; distinct by source + signals + driver."
+        "profile `flow` with shadowing emphasis, 0-2 virtual signals (so the variable swap around virtual evaluation runs), X/C rows (several items share one evaluation), Z/X device answers in a third of the cases (virtual signals then make rows error items and the caller goes on), a malformed driver answer (an entry dropped or repeated, two entries swapped) to one call in a quarter of the cases (that row is an error item, the caller goes on). Every row statement carries a tag and two 64-bit probe inputs `(v)` for variables v definitely in scope there. The caller inspects vars() after every yielded row. Oracle (self-consistent, no reference values): with D = variables definitely in scope at that source row and P = variables that can be in scope there (lets at the level of an enclosing frame, enclosing counters) by an independent static scope analysis of the generating program: D is a subset of keys(vars()) which is a subset of P (so variables of ended loops, device outputs and virtual signals are absent), and for each probed v, vars()[v] equals the value the crate itself evaluated `(v)` to in that row (the innermost binding). Non-trivial: some inspected row has a shadowed name in scope, or follows an ended loop, or is an expansion item other than the first; distinct by source + signals + driver."
     }
     fn cases(&self, tier: Tier) -> u64 {
         match tier {
@@ -47,7 +47,7 @@ impl Property for C18 {
         }
     }
     fn required_classes(&self) -> Vec<&'static str> {
-        vec!["shadowed-name-in-scope", "row-after-loop-end", "expansion-item>0", "declare", "var-named-like-output", "vars-after-error-item", "probe-checked", "row-in-loop"]
+        vec!["shadowed-name-in-scope", "row-after-loop-end", "expansion-item>0", "declare", "var-named-like-output", "vars-after-error-item", "vars-after-malformed-answer", "probe-checked", "row-in-loop"]
     }
     fn run(&self, s: &Streams) -> CaseOut {
         let mut out = CaseOut::new();
@@ -63,6 +63,16 @@ impl Property for C18 {
         );
         if dch.chance(1, 3) {
             spec.zx = 20;
+        }
+        // in a quarter of the cases the driver's answer to one call is malformed (an entry
+        // dropped or repeated, two entries swapped): that row is an error item, the caller goes on
+        if dch.chance(1, 4) {
+            let p = dch.upto(8);
+            spec.deviate_at = Some((1 + dch.upto(10), match dch.upto(3) {
+                0 => Deviation::Drop(p),
+                1 => Deviation::Duplicate(p),
+                _ => Deviation::Swap(p, p + 1 + dch.upto(3)),
+            }));
         }
         render_case(&mut out, &text, &built.sigs, Some(&spec));
         let f = feats(&built);
@@ -86,6 +96,7 @@ impl Property for C18 {
         let mut prev_tag = None;
         let mut seen_error = false;
         let mut definite_trusted = true;
+        let mut seen_malformed = false;
         for (i, item) in real.items.iter().enumerate() {
             let row = match item {
                 RealItem::Row(r) => r,
@@ -105,6 +116,11 @@ impl Property for C18 {
                     if after == before {
                         definite_trusted = false;
                     }
+                    if let Some((c, _)) = &spec.deviate_at {
+                        if before <= *c && *c < after {
+                            seen_malformed = true;
+                        }
+                    }
                     continue;
                 }
             };
@@ -112,6 +128,7 @@ impl Property for C18 {
             let Some(InVal::Val(tag)) = row.inputs.iter().find(|e| e.0 == "TAG").map(|e| e.1) else { continue };
             let Some(sc) = scopes.get(&((tag - 1) as usize)) else { continue };
             out.class_if(seen_error, "vars-after-error-item");
+            out.class_if(seen_malformed, "vars-after-malformed-answer");
             out.class_if(sc.depth > 0, "row-in-loop");
             if prev_tag == Some(tag) {
                 out.class("expansion-item>0");
